@@ -34,14 +34,32 @@ func Until(t Time) Duration          { return stdtime.Until(t) }
 func Unix(sec int64, ns int64) Time  { return stdtime.Unix(sec, ns) }
 func ParseDuration(s string) (Duration, error) { return stdtime.ParseDuration(s) }
 
-// Timer mirrors time.Timer.
+// Timer mirrors time.Timer. Two channel semantics are simulated, chosen per run:
+//   - synchronous (Go >= 1.23, what synctest's runtime gives): the real timer channel is used;
+//     Stop/Reset leave no stale value behind and Stop reports true unless the value was received;
+//   - asynchronous (GODEBUG asynctimerchan=1, what a main module with go < 1.23 gets): C is a
+//     one-slot buffered channel filled by a callback when the timer fires; Stop reports false once
+//     the timer has fired even if nobody received the value, and neither Stop nor Reset drains it.
 type Timer struct {
-	C <-chan Time
-	t *stdtime.Timer
+	C     <-chan Time
+	t     *stdtime.Timer
+	async bool
+	c     chan Time
 }
 
 func NewTimer(d Duration) *Timer {
 	sim.Pre("time.NewTimer")
+	if sim.AsyncTimerChan() {
+		c := make(chan Time, 1)
+		rt := stdtime.AfterFunc(d+sim.Lateness(), func() {
+			select {
+			case c <- stdtime.Now():
+			default:
+			}
+		})
+		sim.TrackTimer(rt)
+		return &Timer{C: c, c: c, t: rt, async: true}
+	}
 	rt := stdtime.NewTimer(d + sim.Lateness())
 	sim.TrackTimer(rt)
 	return &Timer{C: rt.C, t: rt}
